@@ -213,8 +213,8 @@ def main(argv):
 
         # ---- workload ------------------------------------------------------
         nprog = 30 if tier == "quick" else 150
-        nplans = 10 if tier == "quick" else 12
-        ngen = 12 if tier == "quick" else 60
+        nplans = 10 if tier == "quick" else 24
+        ngen = 12 if tier == "quick" else 120
         cs = worlds.corpus(max_bytes=8000)
         rng0 = vsim.Rng(seed, "c08-programs")
         rng0.shuffle(cs)
